@@ -63,6 +63,12 @@ class SymBase(object):
     def bool(self, name):
         return self._bool(name)
 
+    def float(self, name):
+        """A symbolic non-NaN float."""
+        v = self._float(name)
+        assume(v == v)
+        return v
+
     def str(self, name, maxlen, alphabet=None):
         """A symbolic string of length <= maxlen (optionally over alphabet)."""
         v = self._str(name)
@@ -75,14 +81,12 @@ class SymBase(object):
 
     # -- derived -----------------------------------------------------------
     def choice(self, name, n):
-        """A *concrete* int in [0, n): one solver-decided fork per value."""
-        if n <= 1:
-            return 0
-        x = self.int(name, 0, n - 1)
+        """A *concrete* int in [0, n): a chain of solver-decided forks (one
+        symbolic Boolean per value; nothing is pruned)."""
         for v in range(n - 1):
-            if x == v:
+            if self._bool('%s=%d' % (name, v)):
                 return v
-        return n - 1
+        return max(n - 1, 0)
 
     def pick(self, name, seq):
         return seq[self.choice(name, len(seq))]
@@ -144,6 +148,9 @@ class ConcreteSym(SymBase):
 
     def _str(self, name):
         return self._next(name, (str,))
+
+    def _float(self, name):
+        return float(self._next(name, (float, int)))
 
 
 class ReplayMismatch(BaseException):
